@@ -119,7 +119,7 @@ def setitem_case(rng, tier):
     D, P = rng.randint(1, 3), rng.randint(1, 2)
     idx = rand_index(rng, shape)
     return {'op': 'setitem', 'D': D, 'P': P, 'x': intdata(rng, (D, P) + shape), 'idx': idx, 'bare': rng.random() < 0.4,
-            'rhs': rng.choice(['utpm', 'utpm-bcast', 'scalar', 'ndarray']), 'seed': rng.randrange(1 << 30)}
+            'rhs': rng.choice(['utpm', 'utpm-bcast', 'scalar', 'ndarray', 'ndarray-selfview']), 'seed': rng.randrange(1 << 30)}
 
 
 def setitem_fails(ctx, case):
@@ -155,6 +155,15 @@ def setitem_fails(ctx, case):
             for p in range(P):
                 want[d, p][key] = c if d == 0 else 0.0
         rhs = c
+    elif kind == 'ndarray-selfview':
+        # the constant is a view into the polynomial's own coefficient storage (any order, any direction)
+        d0, p0 = rng.randrange(D), rng.randrange(P)
+        c = u.data[d0, p0][key]
+        cval = np.array(x[d0, p0][key])
+        for d in range(D):
+            for p in range(P):
+                want[d, p][key] = cval if d == 0 else 0.0
+        rhs = c
     else:
         c = intdata(rng, tshape)
         for d in range(D):
@@ -172,7 +181,7 @@ def setitem_fails(ctx, case):
         mm = ctx.model.arrs({'op': 'np', 'what': 'utsetitem', 'x': enc_arr(x), 'idx': enc_idx(idx), 'v': enc_arr(r)})
     else:
         mm = ctx.model.arrs({'op': 'np', 'what': 'utsetitemconst', 'x': enc_arr(x), 'idx': enc_idx(idx),
-                             'v': enc_arr(np.asarray(rhs, dtype=float))})
+                             'v': enc_arr(np.asarray(cval if kind == 'ndarray-selfview' else rhs, dtype=float))})
     if isinstance(mm, str) or not np.array_equal(np.asarray(mm[0]).reshape(u.data.shape), u.data):
         return 'setitem-model-%s: x[%r] = <%s> differs from the model utSetitem%s' % (kind, list(idx), kind, '' if kind.startswith('utpm') else 'Const')
     return None
@@ -273,6 +282,8 @@ def shapeop_case(rng, tier):
         s = tuple(rng.randint(1, 4) for _ in range(rng.randint(1, 3)))
         c['x'] = intdata(rng, (D, P) + s) + 1j * intdata(rng, (D, P) + s)
         c['axis'] = rng.choice(list(range(-len(s), len(s))))
+        if op in ('fft', 'ifft') and rng.random() < 0.4:
+            c['n'] = rng.randint(1, 6)          # truncating / zero-padding transform length
     else:
         c['x'] = intdata(rng, (D, P) + tuple(rng.randint(1, 3) for _ in range(rng.randint(0, 2))))
     return c
@@ -307,8 +318,8 @@ def shapeop_fails(ctx, case):
         'conj': (lambda v: algopy.conjugate(v), lambda a: np.conjugate(a)),
         'real': (lambda v: algopy.real(v), lambda a: np.real(a)),
         'imag': (lambda v: algopy.imag(v), lambda a: np.imag(a)),
-        'fft': (lambda v: algopy.fft.fft(v, axis=case.get('axis', -1)), lambda a: np.fft.fft(a, axis=case.get('axis', -1))),
-        'ifft': (lambda v: algopy.fft.ifft(v, axis=case.get('axis', -1)), lambda a: np.fft.ifft(a, axis=case.get('axis', -1))),
+        'fft': (lambda v: algopy.fft.fft(v, n=case.get('n'), axis=case.get('axis', -1)), lambda a: np.fft.fft(a, n=case.get('n'), axis=case.get('axis', -1))),
+        'ifft': (lambda v: algopy.fft.ifft(v, n=case.get('n'), axis=case.get('axis', -1)), lambda a: np.fft.ifft(a, n=case.get('n'), axis=case.get('axis', -1))),
         'zeros_like': (lambda v: algopy.zeros_like(v), lambda a: np.zeros_like(a)),
         'ones_like': (lambda v: algopy.ones_like(v), None),
         'zeros': (lambda v: algopy.zeros((2, 3), dtype=v), None),
